@@ -56,15 +56,18 @@ Theorem C10_validator_is_the_table : forall E e, Some (Generic.check E e) = matc
 Proof. exact check_is_the_table. Qed.
 
 (* no call of a standard-library function with a number of arguments inside its registered arity fails with a parameter-count error - for every registration of the table
-   regenerated from stdlib/*.rs, every argument list of such a length and whatever the kinds of the arguments (max and min: on at least one value - an empty array spread has none) *)
+   regenerated from stdlib/*.rs, every argument list of such a length and whatever the kinds of the arguments (max and min: on at least one value - an empty array spread has none; if_then: with a Boolean condition, its documented kind -
+   called as a function with three arguments and a condition of another kind it does answer with a count error, see the example) *)
 Require Import Builtins Time GenBuiltins ArityFacts.
 Theorem C10_no_count_error_within_arity : forall off name a p ps k, In (name, a, p) gen_builtins -> garity_ok a (length ps) = true ->
-  ((name = max_name \/ name = min_name) -> smart_vec ps <> []) -> call_builtin off name ps <> BErr (WrongParameterCount k).
+  ((name = max_name \/ name = min_name) -> smart_vec ps <> []) -> (name = ArityFacts.if_then_name -> match ps with VBool _ :: _ => True | _ => False end) ->
+  call_builtin off name ps <> BErr (WrongParameterCount k).
 Proof. exact builtin_no_count_error_within_arity. Qed.
 Theorem C10_no_count_error_within_arity_time : forall name a p ps k, In (name, a, p) gen_builtins -> garity_ok a (length ps) = true -> call_time name ps <> BErr (WrongParameterCount k).
 Proof. exact time_no_count_error_within_arity. Qed.
 (* non-vacuity: outside the arity the count error does come back, and the empty spread is the stated exception *)
 Example C10_count_error_outside : call_builtin 1 (A [97;116]%Z) [VBool true] = BErr (WrongParameterCount 2) /\ garity_ok (GPoly 2 0) 1 = false /\
-  call_builtin 1 max_name [VArr []] = BErr (WrongParameterCount 1) /\ In (A [97;116]%Z, GPoly 2 0, true) gen_builtins.
+  call_builtin 1 max_name [VArr []] = BErr (WrongParameterCount 1) /\ In (A [97;116]%Z, GPoly 2 0, true) gen_builtins /\
+  call_builtin 1 ArityFacts.if_then_name [VNum (of_int 1); VBool true; VBool false] = BErr (WrongParameterCount 2).
 Proof. repeat split; try reflexivity. unfold gen_builtins. cbn. auto. Qed.
 Print Assumptions C10_no_count_error_within_arity. Print Assumptions C10_no_count_error_within_arity_time.
